@@ -158,6 +158,18 @@ class AstToSqlVisitor(visitor.NodeVisitor):
             return 1
         return 0
 
+    def _is_boolean_expression(self, node: ast._Node) -> bool:
+        """
+        Whether ``node`` results in a SQL boolean expression or predicate, which
+        needs parentheses to be used as the operand of a comparison.
+        :meta private:
+        """
+        if isinstance(node, (ast.BoolOp, ast.Compare)):
+            return True
+        if isinstance(node, ast.UnaryOp) and isinstance(node.op, ast.Not):
+            return True
+        return self._is_predicate_call(node)
+
     @staticmethod
     def _is_predicate_call(node: ast._Node) -> bool:
         """
@@ -207,13 +219,9 @@ class AstToSqlVisitor(visitor.NodeVisitor):
         comparator = self.visit(node.comparator)
 
         # In case of a subexpression, wrap it in parentheses
-        if isinstance(
-            node.left, (ast.BoolOp, ast.Compare)
-        ) or self._is_predicate_call(node.left):
+        if self._is_boolean_expression(node.left):
             left = f"({left})"
-        if isinstance(
-            node.right, (ast.BoolOp, ast.Compare)
-        ) or self._is_predicate_call(node.right):
+        if self._is_boolean_expression(node.right):
             right = f"({right})"
 
         # 'null eq x' means the same as 'x eq null':
